@@ -1,6 +1,104 @@
-(* C05 -- Decrypting untrusted bytes ends promptly with a deliberate error type. Statements only. *)
-From V Require Import Prelude.Base gen.K_cache Proofs.C05.
+(* C05 -- Decrypting untrusted bytes ends promptly with a deliberate error type. Statements only.
+
+   Object: unprotect_offline (Model/Client.v), the whole offline path of ncrypt_unprotect_secret: DER reader,
+   CMS / blob decoders, key identifier, SID -> security descriptor, KeyCache lookup, key chain, KEK, key unwrap,
+   content decryption. `Safe r` (Proofs/C05.v): r is a value or raises one of ValueError, NotImplementedError,
+   NotEnoughData, InvalidTag, InvalidUnwrap, NeedNetwork -- never IndexError, OverflowError, StructError,
+   TypeError, KeyError, AttributeError, EOFError, IncompleteRead, OutOfFuel.
+
+   Hypotheses: the crypto record is arbitrary up to the exception classes of its primitives (CryptoLaws);
+   `wfb data` says the blob is a Python bytes object (the model's `bytes` is `list Z`; every element of a bytes
+   object is in 0..255) -- its CONTENT is arbitrary; `cache_ok` (Proofs/C05Keys.v) says every cached seed
+   envelope sits at a position L1 <= 31, L2 <= 31. Nothing is assumed of loaded root keys, cached L0 indices or
+   key material. *)
+From V Require Import Prelude.Base Prelude.PyInt gen.K_cache gen.Kernels.
+From V Require Import Model.Types Model.Crypto Model.Sym Model.Blob Model.Client.
+From V Require Import Proofs.C05 Proofs.C05Asn1 Proofs.C05Blob Proofs.C05Keys.
 
 Theorem C05_l0_guard : forall l0, k_cache_l0_guard l0 = true <-> ~ (0 <= l0 <= 2147483647).
 Proof. exact l0_guard_meaning. Qed.
 Print Assumptions C05_l0_guard.
+
+(* 1. value, NeedNetwork, or a deliberate error class *)
+Theorem C05_deliberate : forall c, CryptoLaws c -> forall cache data, wfb data = true -> cache_ok cache ->
+  Safe (fst (unprotect_offline c cache data)).
+Proof. exact unprotect_offline_deliberate. Qed.
+Print Assumptions C05_deliberate.
+
+(* the same, with the error classes spelled out *)
+Theorem C05_error_classes : forall c, CryptoLaws c -> forall cache data e, wfb data = true -> cache_ok cache ->
+  fst (unprotect_offline c cache data) = Raise e ->
+  e = ValueError \/ e = NotImplementedError \/ e = NotEnoughData \/ e = InvalidTag \/ e = InvalidUnwrap \/ e = NeedNetwork.
+Proof. exact unprotect_offline_no_internal_error. Qed.
+Print Assumptions C05_error_classes.
+
+(* cache_ok is an invariant: it holds of a cache with any loaded root keys and no seeds, and a call preserves it *)
+Theorem C05_cache_ok_initial : forall rkid rk, cache_ok (cc_load cc_empty rkid rk).
+Proof. exact cc_load_empty_ok. Qed.
+Print Assumptions C05_cache_ok_initial.
+Theorem C05_cache_ok_load : forall cache rkid rk, cache_ok cache -> cache_ok (cc_load cache rkid rk).
+Proof. exact cc_load_ok. Qed.
+Print Assumptions C05_cache_ok_load.
+Theorem C05_cache_ok_preserved : forall c, CryptoLaws c -> forall cache data, wfb data = true -> cache_ok cache ->
+  cache_ok (snd (unprotect_offline c cache data)).
+Proof. exact unprotect_offline_cache_ok. Qed.
+Print Assumptions C05_cache_ok_preserved.
+
+(* 2. every fuelled loop of the pipeline ends within its fuel: the reader loops have fuel = length of the bytes
+   they walk (RecipientInfos, OID arcs, UTF-8 / UTF-16 decoding), the two key-chain loops fuel 100 *)
+Theorem C05_no_fuel_exhaustion : forall c, CryptoLaws c -> forall cache data, wfb data = true -> cache_ok cache ->
+  fst (unprotect_offline c cache data) <> Raise OutOfFuel.
+Proof. exact unprotect_offline_no_fuel_exhaustion. Qed.
+Print Assumptions C05_no_fuel_exhaustion.
+
+(* (a) the parser layer on its own: DPAPINGBlob.unpack on arbitrary bytes *)
+Theorem C05_blob_unpack : forall data, wfb data = true -> Safe (blob_unpack data).
+Proof. exact blob_unpack_deliberate. Qed.
+Print Assumptions C05_blob_unpack.
+
+(* 3. PARTIAL. Wanted: C05_bounded_kdf : one unprotect_offline call makes at most 2 + 63 + 3 KDF calls
+   (compute_l1_key 2, compute_l2_key <= 31 + 1 + 31, get_kek <= 3), as a theorem about a call counter threaded
+   through the whole pipeline. The Crypto record's KDFs are pure functions and the model has no counter, so only
+   the loop part is a theorem: instrument ANY kdf of the regenerated kernel k_compute_l2_key with a counter
+   (`counted`); from an envelope at a position <= (31, 31) the derived key was reached with at most 63 KDF calls,
+   it is the key of the uninstrumented run, and no fuel >= 32 is ever exhausted. The calls outside the kernel are
+   straight-line code (no loop) in compute_l1_key / get_kek / compute_kek. *)
+Theorem C05_bounded_kdf_partial : forall (K : Type) (kdf : K -> Z -> Z -> K) fuel l1 l2 a b k1 k2 r,
+  a <= 31 -> b <= 31 -> (32 <= fuel)%nat ->
+  k_compute_l2_key (counted kdf) fuel l1 l2 a b (k1, 0) (k2, 0) = Ok r ->
+  0 <= snd r <= 63 /\ k_compute_l2_key kdf fuel l1 l2 a b k1 k2 = Ok (fst r).
+Proof. exact @l2_kdf_calls. Qed.
+Print Assumptions C05_bounded_kdf_partial.
+Theorem C05_l2_loops_within_fuel : forall (K : Type) (kdf : K -> Z -> Z -> K) f1 f2 l1 l2 a b k1 k2,
+  a <= 31 -> b <= 31 -> (32 <= f1)%nat -> (32 <= f2)%nat ->
+  k_compute_l2_key kdf f1 l1 l2 a b k1 k2 <> Raise OutOfFuel.
+Proof. exact @l2_fuel_independent. Qed.
+Print Assumptions C05_l2_loops_within_fuel.
+
+(* the KDF context is where the guards matter: outside the signed 32-bit range it is an OverflowError *)
+Theorem C05_kdf_context_overflow : forall rkid l0 l1 l2, ~ i32 l0 -> Chain.compute_kdf_context rkid l0 l1 l2 = Raise OverflowError.
+Proof. exact compute_kdf_context_l0_overflow. Qed.
+Print Assumptions C05_kdf_context_overflow.
+
+(* ---- the hypotheses are satisfiable; concrete runs ---- *)
+Example C05_crypto_laws_inhabited : CryptoLaws idc.
+Proof. exact idc_laws. Qed.
+Example C05_hyps_example : wfb ex_blob = true /\ cache_ok ex_cache /\ len ex_blob = 1478.
+Proof. exact ex_hyps. Qed.
+Example C05_outcomes_example :
+  fst (unprotect_offline sym ex_cache ex_blob) = Ok [104; 105] /\
+  fst (unprotect_offline sym ex_cache (firstn 100 ex_blob)) = Raise NotEnoughData /\
+  fst (unprotect_offline sym cc_empty ex_blob) = Raise NeedNetwork /\
+  fst (unprotect_offline sym ex_cache (patch 54 [0; 0; 0; 128] ex_blob)) = Raise ValueError /\
+  fst (unprotect_offline sym ex_cache (patch 54 [255; 255; 255; 255] ex_blob)) = Raise ValueError /\
+  fst (unprotect_offline sym ex_cache (patch 58 [32; 0; 0; 0] ex_blob)) = Raise ValueError /\
+  fst (unprotect_offline sym ex_cache (patch 62 [255; 255; 255; 255] ex_blob)) = Raise ValueError /\
+  fst (unprotect_offline sym ex_cache (patch 62 [22; 0; 0; 0] ex_blob)) = Raise InvalidUnwrap /\
+  fst (unprotect_offline sym ex_cache (patch 4 [2; 0] ex_blob)) = Raise ValueError /\
+  fst (unprotect_offline sym ex_cache []) = Raise NotEnoughData.
+Proof. exact ex_outcomes. Qed.
+(* cache_ok cannot be dropped: a cached envelope claiming L1 = 200 exhausts the fuel of the L1 loop *)
+Example C05_cache_ok_needed_example :
+  fst (unprotect_offline sym (ex_cache_at 200 31) ex_blob) = Raise OutOfFuel /\ ~ cache_ok (ex_cache_at 200 31) /\
+  cache_ok (ex_cache_at 31 31) /\ fst (unprotect_offline sym (ex_cache_at 31 31) ex_blob) = Raise InvalidUnwrap.
+Proof. exact ex_cache_ok_needed. Qed.
